@@ -4886,7 +4886,12 @@ impl Command {
     pub(crate) fn has_visible_subcommands(&self) -> bool {
         self.subcommands
             .iter()
-            .any(|sc| sc.name != "help" && !sc.is_set(AppSettings::Hidden))
+            .any(|sc| {
+                // the autogenerated `help` does not count but a user's own (with
+                // `disable_help_subcommand`) does
+                (sc.name != "help" || self.is_disable_help_subcommand_set())
+                    && !sc.is_set(AppSettings::Hidden)
+            })
     }
 
     /// Check if this subcommand can be referred to as `name`. In other words,
